@@ -495,9 +495,10 @@ func (e *escaper) escapeTree(c context, node parse.Node, name string, line int) 
 		return out, dname
 	}
 	t := e.template(name)
-	if t == nil {
-		// Two cases: The template exists but is empty, or has never been mentioned at
-		// all. Distinguish the cases in the error messages.
+	if t == nil || t.Tree == nil {
+		// Two cases: The template exists but is empty (or lost its parse tree when an
+		// earlier analysis of it failed), or has never been mentioned at all.
+		// Distinguish the cases in the error messages.
 		if e.ns.set[name] != nil {
 			return context{
 				state: stateError,
